@@ -190,6 +190,8 @@ pub struct Profile {
     /// text alphabet includes combining marks / ZWJ / variation selectors (grapheme clusters of
     /// several code points)
     pub combining: bool,
+    /// half of the scalar values are strings (C40)
+    pub stringy: bool,
 }
 
 impl Profile {
@@ -208,6 +210,7 @@ impl Profile {
             nkeys: 3,
             counter_heavy: false,
             combining: false,
+            stringy: false,
         }
     }
     pub fn graph() -> Self {
@@ -218,6 +221,9 @@ impl Profile {
 const KEYS: [&str; 3] = ["k1", "k2", "k3"];
 
 pub fn rand_scalar(rng: &mut Rng, prof: &Profile) -> J {
+    if prof.stringy && rng.chance(1, 2) {
+        return enc::scalar(&ScalarValue::Str(["x", "y", "zz", "", "\u{e9}\u{1f600}"][rng.below(5)].into()));
+    }
     let n = rng.below(if prof.counters { 7 } else { 6 });
     match n {
         0 | 1 => enc::scalar(&ScalarValue::Int(rng.below(4) as i64)),
